@@ -49,6 +49,9 @@ static const char *const ctr_names[VF_NCTR] = {
     X(bool, binson_write_double, (binson_writer *, double)) \
     X(bool, binson_write_string_with_len, (binson_writer *, const char *, size_t)) \
     X(bool, binson_write_bytes, (binson_writer *, const uint8_t *, size_t)) \
+    X(bool, binson_write_raw, (binson_writer *, const uint8_t *, size_t)) \
+    X(bool, binson_write_array_begin, (binson_writer *)) \
+    X(bool, binson_write_array_end, (binson_writer *)) \
     X(bool, binson_parser_to_writer, (binson_parser *, binson_writer *)) \
     X(bool, binson_writer_verify, (binson_writer *))
 #define X(ret, name, args) static ret (*p_##name) args;
@@ -159,12 +162,12 @@ static size_t payload_doc(int n) { size_t k = 0; DOC[k++] = 0x42; DOC[k++] = n <
 /* ------------------------------------------------------------------ painted stack */
 #define STK (1 << 20)
 static uint8_t *stk;
-typedef struct { int entry; size_t len; int kind; } job_t;
+typedef struct { int entry; size_t len; int kind; int par; } job_t;
 static binson_state BIGSTATE[255];
 static char *textbuf;
 static volatile uint64_t sink;
-enum { E_VERIFY, E_TRAVERSE, E_TOSTRING_NULL, E_TOSTRING, E_PRINT, E_LOOKUPS, E_RAW_WRITER, E_NENTRY };
-static const char *const entry_name[E_NENTRY] = { "verify", "full traversal (next / go_into / leave)", "to_string(NULL)", "to_string(buffer)", "print", "field lookups (hits and misses)", "get_raw + writer" };
+enum { E_VERIFY, E_TRAVERSE, E_TOSTRING_NULL, E_TOSTRING, E_PRINT, E_LOOKUPS, E_RAW_WRITER, E_WRITE_PAYLOAD, E_NENTRY };
+static const char *const entry_name[E_NENTRY] = { "verify", "full traversal (next / go_into / leave)", "to_string(NULL)", "to_string(buffer)", "print", "field lookups (hits and misses)", "get_raw + writer", "writer: string / bytes / raw of n bytes from a disjoint source and from sources overlapping the destination" };
 static void traverse_all(binson_parser *p)
 {
     /* iterative full traversal: enter every container, then leave */
@@ -210,6 +213,24 @@ static void *job_thread(void *arg)
             p_binson_parser_field_with_length(&p, q, 2);        /* miss: a prefix */
             if (!p_binson_parser_field_with_length(&p, q, 3)) break;
         }
+        break;
+    }
+    case E_WRITE_PAYLOAD: {
+        /* n payload bytes through every length-carrying writer entry point: from a disjoint source, from a source staged inside the
+         * destination just ahead of the cursor, and from the bytes just written (overlap from below) */
+        static uint8_t out[1 << 18], src[1 << 16];
+        size_t n = (size_t) j->par;
+        binson_writer w;
+        memset(src, 'x', sizeof src);
+        p_binson_writer_init(&w, out, sizeof out);
+        p_binson_write_array_begin(&w);
+        p_binson_write_bytes(&w, src, n);
+        p_binson_write_string_with_len(&w, (const char *) src, n);
+        memset(out + w.buffer_used + 9, 'y', n);
+        p_binson_write_bytes(&w, out + w.buffer_used + 9, n);
+        p_binson_write_raw(&w, out + w.buffer_used - n / 2, n);
+        p_binson_write_array_end(&w);
+        if (w.error_flags) return (void *) 1;
         break;
     }
     case E_RAW_WRITER: {
@@ -259,15 +280,18 @@ static void stack_families(bool has_print)
             if (entry == E_LOOKUPS && fam != 3) continue;
             if (entry == E_RAW_WRITER && fam == 2) continue;    /* first element must be a container in every member */
             if (entry == E_RAW_WRITER && fam >= 3) continue;
+            if (entry == E_WRITE_PAYLOAD && fam != 4) continue;
             long first = -2;
             char desc[200];
             vf_count(CT_STACK_FAMILIES, 1);
             for (int m = 0; m < 4; m++) {
                 job_t j;
                 j.entry = entry;
+                j.par = 0;
                 int par = fam <= 1 ? tower_k[m] : (fam == 2 ? flat_n[m] : fam == 3 ? field_n[m] : payload_n[m]);
                 j.len = fam == 0 ? tower_objects(par) : fam == 1 ? tower_arrays(par) : fam == 2 ? flat_array(par) : fam == 3 ? field_list(par) : payload_doc(par);
                 j.kind = (fam == 0 || fam == 3) ? VK_OBJ : VK_ARR;
+                j.par = par;
                 snprintf(desc, sizeof desc, "stack high-water of '%s' on family %s, parameter %d (%zu bytes)", entry_name[entry],
                          fam == 0 ? "nested objects" : fam == 1 ? "nested arrays" : fam == 2 ? "flat array of n elements" : fam == 3 ? "object with n fields" : "one bytes value of n bytes", par, j.len);
                 cur_what = desc;
